@@ -675,7 +675,7 @@ def run(ctx: Ctx) -> None:
         ctx.count(("heap", c["desc"], [[list(o), l] for o, l in c["ops"]]), shared_used or "'M'" in repr(c["desc"]),
                   "heap correspondence, graph with aliasing" if shared_used else "heap correspondence, tree")
     ctx.extra["heap_correspondence_operations"] = ophist
-    correspondence(ctx, "heap operations (tagify, render, get_html_string, get_dependencies, copy, HTMLDocument.render) "
+    correspondence(ctx, "heap operations (tagify, render, get_html_string, get_dependencies, copy, HTMLDocument.render, _hoist_head_content) "
                         "on graphs with aliasing", cases)
 
     # == against the model of _equals_impl
